@@ -17,7 +17,7 @@ RULE = ('cases = (program, recording inputs, history of <= 6 (quick) / 15 (thoro
         'non-trivial = history has >= 3 calls including a pullback that is not the first call after its pushforward; distinct by hash')
 ASSUMPTIONS = ['expected results come from a fresh recording of the same program (its correctness is C03/C04/C05)', 'tolerance 1e-10 relative']
 
-KINDS = ['ew', 'ew', 'bin', 'bin', 'binc', 'getitem', 'sum', 'dot', 'prod', 'buffer', 'buffer', 'reshape', 'transpose', 'outer']
+KINDS = ['ew', 'ew', 'bin', 'bin', 'binc', 'getitem', 'sum', 'dot', 'prod', 'buffer', 'buffer', 'reshape', 'transpose', 'outer', 'fftfilter']
 
 
 def make_case(rng, tier):
@@ -35,6 +35,9 @@ def make_case(rng, tier):
         D, P = rng.randint(1, 3), rng.randint(1, 2)
         x = rand_coeffs(rng, (D, P, N), -1, 1)
         x[0] = rand_coeffs(rng, (P, N), -programs.BOX, programs.BOX)
+        if rng.random() < 0.5:
+            # values with a full mantissa (x + 1 - 1 != x): a kernel that "restores" a stored value only up to rounding shows
+            x = x * (1.0 + 2.0 ** -27) + 2.0 ** -31 * np.array([rng.random() for _ in range(x.size)]).reshape(x.shape)
         hist.append({'k': k, 'x': x, 'pt': rand_coeffs(rng, (N,), -programs.BOX, programs.BOX), 'v': rand_coeffs(rng, (N,), -1, 1),
                      'seed': rng.randrange(1 << 30), 'kind': rng.choice(['ut', 'ut', 'nd']),
                      'dt': rng.choice(['float', 'float', 'float', 'int', 'complex'])})
@@ -157,6 +160,26 @@ def history_fails(case):
     return None
 
 
+def kernel_cases(rng):
+    """one history per differentiable operation: a forward evaluation at generic (full-mantissa) values followed by three
+    reverse sweeps — every pullback kernel must leave all forward values bit-identical"""
+    from props import c03
+    out = []
+    for prog in c03.single_op_programs(rng) + c03.single_op_programs(rng):
+        if len(prog['inputs']) != 1 or len(prog['inputs'][0]) != 1:
+            continue
+        N = prog['inputs'][0][0]
+        D, P = rng.randint(2, 3), 2
+        x = rand_coeffs(rng, (D, P, N), -1, 1)
+        x[0] = rand_coeffs(rng, (P, N), -programs.BOX, programs.BOX)
+        x = x * (1.0 + 2.0 ** -27) + 2.0 ** -31 * np.array([rng.random() for _ in range(x.size)]).reshape(x.shape)
+        hist = [{'k': 'push', 'x': x, 'pt': x[0, 0], 'v': x[0, 0], 'seed': rng.randrange(1 << 30), 'kind': 'ut', 'dt': 'float'}]
+        for _ in range(3):
+            hist.append({'k': 'pull', 'x': x, 'pt': x[0, 0], 'v': x[0, 0], 'seed': rng.randrange(1 << 30), 'kind': 'ut', 'dt': 'float'})
+        out.append({'prog': prog, 'N': N, 'rec': rand_coeffs(rng, (N,), -programs.BOX, programs.BOX), 'hist': hist})
+    return out
+
+
 def nontrivial(case):
     ks = [h['k'] for h in case['hist']]
     return len(ks) >= 3 and any(ks[i] == 'pull' and ks[i - 1] in ('pull',) for i in range(1, len(ks)))
@@ -168,6 +191,16 @@ def replay_case(ctx, case):
 
 def run(ctx):
     rng = ctx.rng
+    for case in kernel_cases(rng):
+        ctx.evaluations += 1
+        ctx.count('kernel-history')
+        hh = canon_hash(to_jsonable(case))
+        if hh not in ctx.hashes:
+            ctx.hashes.add(hh)
+            ctx.nontrivial += 1
+        f = history_fails(case)
+        if f:
+            ctx.report(case, 'failure', f)
     for i in range(400 if ctx.tier == 'quick' else 4000):
         case = make_case(rng, ctx.tier)
         ctx.evaluations += 1
